@@ -106,26 +106,29 @@ class Stream:
     def key(seed, k, n):
         return "%s|%d|%d" % (seed, k, n)
 
-    def do_seed(self, a=None):
+    def do_seed(self, a=None, st=None):
+        # st: the state of a generator object of its own (random.Random(seed)); None = the module-level generator
         if a is None or isinstance(a, tuple):
             self.n_unseeded += 1
             a = 'clock%d' % self.n_unseeded
-        self.seed = str(a) if not symx.is_sym(a) else 'symseed'
-        self.k = 0
+        st = self.__dict__ if st is None else st
+        st['seed'] = str(a) if not symx.is_sym(a) else 'symseed'
+        st['k'] = 0
 
     pinned = ()      # seeds whose draws are not explored: always the first option with positive weight (earlier, unrelated samplers)
 
-    def draw(self, n, weights=None):
-        if self.seed in self.pinned:
-            self.k += 1
+    def draw(self, n, weights=None, st=None):
+        st = self.__dict__ if st is None else st
+        if st['seed'] in self.pinned:
+            st['k'] += 1
             if weights is None:
                 return 0
             for i, w in enumerate(weights):
                 if w > 0:
                     return i
             raise symx.PathAbort()
-        key = self.key(self.seed, self.k, n)
-        self.k += 1
+        key = self.key(st['seed'], st['k'], n)
+        st['k'] += 1
         if self.recorded is not None:
             if key not in self.recorded:
                 raise symx.Unsupported('replay: no recorded draw for %s (the symbolic run never got here)' % key)
@@ -149,11 +152,55 @@ class Stream:
 STREAM = Stream()
 
 
+def stub_random_class(stream):
+    """random.Random with seed/choice/choices drawn from ``stream`` -- a generator object of its own is the same
+    stream R(seed, k, n) with its own (seed, k); every other method of the generator is outside the model"""
+    class StubRandom(_REAL_RANDOM):
+        def __init__(self, x=None):
+            _REAL_RANDOM.__init__(self, 0)
+            self._st = {}
+            stream.do_seed(x, self._st)
+
+        def seed(self, a=None, version=2):
+            if '_st' in self.__dict__:
+                stream.do_seed(a, self._st)
+            else:
+                _REAL_RANDOM.seed(self, 0)
+
+        def choice(self, seq):
+            if len(seq) == 0:
+                raise NoChoice('empty sequence')
+            return seq[stream.draw(len(seq), None, self._st)]
+
+        def choices(self, population, weights=None, *, cum_weights=None, k=1):
+            if cum_weights is not None or k != 1:
+                raise symx.Unsupported('random.choices with cum_weights / k != 1')
+            if len(population) == 0:
+                raise NoChoice('empty sequence')
+            if weights is not None:
+                weights = [float(x) if not symx.is_sym(x) else x for x in list(weights)]
+                if not any((x > 0) for x in weights):
+                    raise NoChoice('total weight zero')
+            return [population[stream.draw(len(population), weights, self._st)]]
+
+        def _outside(self, *a, **kw):
+            raise symx.Unsupported('a method of random.Random other than seed / choice / choices')
+        random = shuffle = sample = randint = randrange = uniform = getrandbits = randbytes = gauss = _outside
+    return StubRandom
+
+
+_REAL_RANDOM = random.Random
+
+
 def install_rng(SH):
+    stub = stub_random_class(STREAM)
+
     def pred(f, a, kw):
-        return f in (random.seed, random.choice, random.choices, time.time_ns)
+        return f in (random.seed, random.choice, random.choices, time.time_ns, _REAL_RANDOM)
 
     def handler(f, a, kw):
+        if f is _REAL_RANDOM:
+            return stub(*a, **kw)
         if f is random.seed:
             STREAM.do_seed(kw.get('a', a[0] if a else None))
             return None
@@ -191,7 +238,7 @@ def with_order(d):
 
 
 class SamplerProp(core.Prop):
-    STUBS = ['random.seed/choice/choices: stream R(seed, k, n) of solver-chosen indices (choices never returns a zero-weight item); '
+    STUBS = ['random.seed/choice/choices (module level or a random.Random object): stream R(seed, k, n) of solver-chosen indices (choices never returns a zero-weight item); other generator methods: unsupported; '
              'time.time_ns: arbitrary', 'pysmiles/networkx/numpy native (probabilities and descriptors are concrete)']
     MAX_PATHS = 40000
     ALLOW_VACUOUS = True     # a prefix class of the first draws may be infeasible for a configuration
@@ -298,6 +345,7 @@ class SamplerProp(core.Prop):
                 raise NoChoice('total weight zero')
             return [seq[rs.draw(len(seq), [float(x) for x in weights] if weights is not None else None)]]
         random.choice, random.choices, random.seed = choice, choices, (lambda a=None: rs.do_seed(a))
+        random.Random = stub_random_class(rs)        # generator objects of their own: the same recorded stream
         try:
             if len(seeds) == 1:
                 return core.guard(self._run_once, M, shape, inp, seeds[0], False)
@@ -309,6 +357,7 @@ class SamplerProp(core.Prop):
             return out
         finally:
             random.choice, random.choices, random.seed = o_choice, o_choices, o_seed
+            random.Random = _REAL_RANDOM
 
 
 class C16(SamplerProp):
@@ -476,5 +525,5 @@ def wellformed_clauses(shape, o):
 PROP = C16()
 
 # shape families added after the first complete pass (DESIGN 8.6-8.11); appended to the bounds written into the evidence
-BOUNDS_ADDED = '; plus: plain constructor and start_fragment variants, one deep path class (<= 12 added fragments, all draws first option)'
+BOUNDS_ADDED = '; plus: plain constructor and start_fragment variants, one deep path class (<= 12 added fragments, all draws first option); the generator may be the module-level one or a random.Random object owned by the sampler (same stream model)'
 PROP.BOUNDS = {k: v + BOUNDS_ADDED for k, v in PROP.BOUNDS.items()}
